@@ -186,13 +186,15 @@ Target.fault_of_out = _fault_of_out
 
 
 def uses_xml_only(t):
-    return 'attr' in t or 'xmldata' in t
+    return 'xmldata' in t
 
 
 def uses_xml_only_deep(ir, t, seen=None):
     seen = seen or set()
-    if 'attr' in t or 'xmldata' in t:
+    if 'xmldata' in t:
         return True
+    if 'attr' in t:
+        return False          # an attribute member is an ordinary member of a dict document
     if 'ref' in t:
         if t['ref'] in seen:
             return False
